@@ -643,7 +643,8 @@ class ExecExpr(ExecBase):
             if len(tops) == 1:
                 self.oblige("safe", st, self.w.isinstance_term(base.t, tops[0]),
                             f"downcast to {self.w.short_name(tops[0])} for attribute {name}", name=self.next_call_id("cast"))
-                st.assume(self.w.isinstance_term(base.t, tops[0]))
+                if not self.spec_mode:
+                    st.assume(self.w.isinstance_term(base.t, tops[0]))
                 yield from self.get_attr(st, V(base.kind, base.t, tops[0]), name)
                 return
             raise EngineError(f"unknown attribute {name} on {self.w.short_name(base.cls)}")
